@@ -500,6 +500,26 @@ def run(p: Program, rep: Report, tier: str) -> None:
             n_close += 1
         else:
             rep.violation("R11.4", construct(call, text="no-extension path"), where(call), f"without the denial extension the socket is not closed with exactly one websocket.close ({len(sends)} sends)")
+    # the HTTP response events (websocket.http.response.start/body) are legal only for a server that advertised the
+    # "websocket.http.response" extension: every path that runs the response carries that membership test as a fact
+    DEN_KEY = ("const", "websocket.http.response")
+    for pa in paths:
+        if pa.exit != "return" or not any(e.kind == "call" and e.a == ("attr", ("param", "self"), "response") for e in pa.events):
+            continue
+        member = [f for f, t in pa.facts if f[0] == "cmp" and ((f[1] == "In" and t) or (f[1] == "NotIn" and not t)) and f[2] == DEN_KEY]
+        if member and any(contains(f[3], ("const", "extensions")) for f in member):
+            rep.ok("R11.4", "the HTTP response of a denial runs only when the scope's extensions contain 'websocket.http.response'")
+            continue
+        opaque = [f for f, t in pa.facts if any(isinstance(x, tuple) and x and x[0] == "call" and x[1] != ("attr", ("param", "scope"), "get") for x in subterms(f))]
+        if member or opaque:
+            rep.undecide("R11.4", "the test that selects the HTTP response of a denial goes through a call the analysis does not follow")
+        else:
+            ext = [f for f, t in pa.facts if contains(f, ("const", "extensions"))]
+            rep.violation("R11.4", construct(call, text="response without the extension test"), where(call),
+                          "WebsocketDenialResponse runs the HTTP response " + ("on a test of the scope's extensions that does not ask for 'websocket.http.response' "
+                          f"({show(ext[0])[:70]})" if ext else "without testing the scope's extensions") + ": a server that did not advertise the denial extension "
+                          "(no extensions, or only others such as tls / http.response.push) is sent websocket.http.response.start as the first event, which is not a legal "
+                          "websocket application event for it (accept or close first)", positive=True)
     if n_close:
         rep.ok("R11.4", "no-extension path sends exactly one websocket.close")
     else:
